@@ -80,6 +80,11 @@ def _datasets(thorough):
   for yt in itertools.product(rows, repeat=2):
     for yp in itertools.product(rows[:3], repeat=2):
       out.append(('multiclass-indicator', [list(x) for x in yt], [list(x) for x in yp], dict(pos_label=1)))
+  # indicator matrices in other codings: the positive entries are those EQUAL to pos_label (not the truthy ones)
+  for yt, yp in (([[0, 0, 1], [1, 1, 0]], [[1, 1, 0], [1, 0, 0]]), ([[1, 1, 1], [0, 1, 0]], [[0, 1, 0], [0, 0, 1]])):
+    out.append(('multiclass-indicator', yt, yp, dict(pos_label=0)))
+    out.append(('multiclass-indicator', [[2 * v - 1 for v in r] for r in yt], [[2 * v - 1 for v in r] for r in yp], dict(pos_label=1)))      # -1 / +1
+    out.append(('multiclass-indicator', [['Y' if v else 'N' for v in r] for r in yt], [['Y' if v else 'N' for v in r] for r in yp], dict(pos_label='Y')))
   return out
 
 
